@@ -70,6 +70,7 @@ type cfg struct {
 	cap   int
 	typ   string
 	np    int
+	udpto int // UDPReadTimeout in ms (0: the engine's default of 120 s, never reached in a case)
 }
 
 func (c cfg) isAsync() bool { return c.async && c.mode != "lt" }
@@ -145,6 +146,9 @@ type sess struct {
 	eof     bool
 	rerr    bool
 
+	// UDP session timing (cases with a short UDPReadTimeout)
+	lastData map[*nbio.Conn]time.Time
+
 	// side conns: further stream conns of the same engine (fd table / dispatch: who gets whose bytes)
 	side      map[int]*sideConn
 	sideByPtr map[*nbio.Conn]*sideConn
@@ -168,6 +172,8 @@ func errClass(err error) string {
 		return "eof"
 	case errors.Is(err, net.ErrClosed):
 		return "closed"
+	case errors.Is(err, nbio.ErrReadTimeout):
+		return "rtimeout"
 	}
 	var en syscall.Errno
 	if errors.As(err, &en) {
@@ -264,6 +270,9 @@ func newSess(c cfg) (*sess, error) {
 		defDone: make(chan struct{}, 16), defHold: make(chan struct{}, 16),
 		pollerHeld: make(chan struct{}), pollerResume: make(chan struct{})}
 	conf := nbio.Config{NPoller: c.np, ReadBufferSize: c.rbs, MaxConnReadTimesPerEventLoop: c.cap, AsyncReadInPoller: c.async}
+	if c.udpto > 0 {
+		conf.UDPReadTimeout = time.Duration(c.udpto) * time.Millisecond
+	}
 	switch c.mode {
 	case "et":
 		conf.EpollMod = nbio.EPOLLET
@@ -297,6 +306,7 @@ func newSess(c cfg) (*sess, error) {
 		s.mu.Unlock()
 	})
 	g.OnData(func(nc *nbio.Conn, data []byte) { s.onData(nc, data) })
+	g.OnClose(func(nc *nbio.Conn, err error) { s.onClose(nc, err) })
 	curMu.Lock()
 	cur = s
 	curMu.Unlock()
@@ -373,9 +383,33 @@ func (s *sess) firstAlive() *task {
 	return nil
 }
 
+// onClose: a UDP session that is closed by the UDP read timeout must have been silent for that long — the deadline is
+// renewed by every datagram of its remote (one-sided: a close that comes LATE proves nothing and is not judged)
+func (s *sess) onClose(nc *nbio.Conn, err error) {
+	s.mu.Lock()
+	defer s.mu.Unlock()
+	if s.udpto == 0 || nc == s.c || errClass(err) != "rtimeout" {
+		return
+	}
+	last, ok := s.lastData[nc]
+	if !ok {
+		return
+	}
+	T := time.Duration(s.udpto) * time.Millisecond
+	if silent := time.Since(last); silent < T*9/10 {
+		s.oracle = append(s.oracle, fmt.Sprintf("c02-udp-demux session of remote %s closed by the UDP read timeout %v after its last datagram (UDPReadTimeout %v): the deadline is not renewed by every datagram, later datagrams of this remote go to a new conn", s.connAddr[nc], silent.Round(time.Millisecond), T))
+	}
+}
+
 func (s *sess) onData(nc *nbio.Conn, data []byte) {
 	s.mu.Lock()
 	defer s.mu.Unlock()
+	if s.udpto > 0 {
+		if s.lastData == nil {
+			s.lastData = map[*nbio.Conn]time.Time{}
+		}
+		s.lastData[nc] = time.Now()
+	}
 	id, ok := s.ids[nc]
 	if !ok {
 		id = -1
@@ -971,14 +1005,45 @@ func exec(e *lp.Exec) {
 		if len(f) == 0 {
 			continue
 		}
+		if f[0] == "wait" && len(f) == 2 && s != nil && !s.dead && s.udpto > 0 {
+			// wait <ms>: real time passes (cases with a short UDPReadTimeout). Annotated with what the harness saw: `late`
+			// if more than 0.8 x UDPReadTimeout have gone by since a session last got a datagram — then a session may
+			// legitimately have timed out and the rest of the case is not compared
+			ms, _ := strconv.Atoi(f[1])
+			time.Sleep(time.Duration(ms) * time.Millisecond)
+			late := false
+			s.mu.Lock()
+			for _, t := range s.lastData {
+				if time.Since(t) > time.Duration(s.udpto)*time.Millisecond*8/10 {
+					late = true
+				}
+			}
+			s.mu.Unlock()
+			if late {
+				e.P("> wait %d late", ms)
+				e.P("R late")
+				s.dead = true
+			} else {
+				e.P("> wait %d ok", ms)
+				s.state(e, "wait")
+			}
+			continue
+		}
 		e.P("> %s", line)
 		if f[0] == "C" {
 			finish()
-			if len(f) != 8 {
+			if len(f) != 8 && len(f) != 9 {
 				e.P("bad-op")
 				continue
 			}
 			c := cfg{mode: f[1], async: f[2] == "1", exec: f[3], typ: f[6]}
+			if len(f) == 9 {
+				c.udpto, _ = strconv.Atoi(f[8])
+				if c.udpto <= 0 || c.typ != "udp" || c.exec != "def" {
+					e.P("bad-op")
+					continue
+				}
+			}
 			c.rbs, _ = strconv.Atoi(f[4])
 			c.cap, _ = strconv.Atoi(f[5])
 			c.np, _ = strconv.Atoi(f[7])
@@ -1370,6 +1435,27 @@ func gen(g *lp.Gen) {
 	for cs := 0; cs < g.N; cs++ {
 		if cs%11 == 5 {
 			genGateRace(g)
+			continue
+		}
+		if cs%30 == 7 {
+			// a UDP listener with a short session timeout: an active remote keeps its session (deadline renewed by every
+			// datagram), gaps of 0.6 x timeout
+			const T = 300
+			rbs := g.PickInt(7, 4096)
+			g.P("C %s %d def %d %d udp %d %d", g.Pick("lt", "et", "os"), g.Intn(2), rbs, g.PickInt(1, 3, 1000000), g.PickInt(1, 2), T)
+			a, b := "4:7f000001:4000", "4:7f000001:4001"
+			for i := 0; i < 3; i++ {
+				g.P("dgram %s @%d:%d", a, 1+g.Intn(6), g.Intn(256))
+				g.P("poll")
+				if i == 1 && g.Chance(1, 2) {
+					g.P("dgram %s @%d:%d", b, 1+g.Intn(6), g.Intn(256))
+					g.P("poll")
+				}
+				if i < 2 {
+					g.P("wait %d", T*6/10)
+				}
+			}
+			g.P("poll")
 			continue
 		}
 		if cs%40 == 17 {
